@@ -60,7 +60,8 @@ class Contract:
         self.notes = []
         self.may_raise_ = []
         self.force_result = False
-        self.replay_prepare = None       # exception classes callers must consider (with optional cond)
+        self.replay_prepare = None
+        self.yield_ensures_ = []       # exception classes callers must consider (with optional cond)
         self.consts_ = []          # (name, fn(repo) -> (bool, detail))
         self.lemmas_ = []          # (name, fn() -> z3 Bool to prove valid, props)
 
@@ -81,6 +82,10 @@ class Contract:
 
     def exc_ensures(self, name, exc, fn, props=None):
         self.exc_ensures_.append((name, exc, fn, props))
+
+    def yield_ensures(self, name, fn):
+        """obligation on every value a generator yields: fn(env, value_view) -> Bool"""
+        self.yield_ensures_.append((name, fn))
 
     def only_raises(self, *classes):
         self.only_raises_ = list(classes)
@@ -213,6 +218,13 @@ def view(it, v, heap):
         return UnionView(it, v, heap)
     if isinstance(v, VExc):
         return ExcView(it, v, heap)
+    if isinstance(v, VIter):
+        class _IterView:
+            pass
+        iv = _IterView()
+        iv.seq = view(it, v.seq, heap)
+        iv.pos = v.pos if not isinstance(v.pos, int) else z3.IntVal(v.pos)
+        return iv
     return v
 
 
@@ -296,6 +308,7 @@ class VEngine(Engine):
         self.open_hook = getattr(lib, 'open_fd_hook', None)
         self.open_path_hook = None
         self.list_remove_hook = None
+        self.re_sub_hook = None
         self.dict_update_hook = None
         self.codepoint_mode = False
         self.site_hits = {}
@@ -480,7 +493,11 @@ def verify_function(repo, con, schema, lib, registry=None, engine_cls=VEngine, n
         ctx.obligs.append(Obligation(('reach', 'entry'), ctx.pc, z3.BoolVal(True), {}, {}, expect_sat=True))
         yields = []
         if is_gen:
-            fr.yield_sink = lambda v, e: yields.append(v)
+            def sink(v, e):
+                yields.append(v)
+                for name, fn in con.yield_ensures_:
+                    ctx.oblige('yield', name, fn(ClauseEnv(it, fr, {}), view(it, v, ctx.heap)), {'line': e.lineno})
+            fr.yield_sink = sink
         try:
             it.exec_block(node.body, fr)
             result = NONE
